@@ -5,6 +5,8 @@
 #include <sys/socket.h>
 #include <sys/types.h>
 #include <map>
+#include <unistd.h>
+#include <stdio.h>
 #include "h_common.h"
 #include "ola/Logging.h"
 #include "ola/network/IPV4Address.h"
@@ -14,6 +16,10 @@ std::vector<std::vector<uint8_t> > g_sent;
 uint8_t g_poison = 0xA5;
 bool g_prev_mode = false;
 static std::vector<uint8_t> g_persist;
+bool g_kernel_mode = false;
+static std::vector<uint8_t> g_persist_k;
+static int g_ktx = -1, g_krx = -1;
+static struct sockaddr_in g_kaddr;
 unsigned g_rx_calls = 0;
 size_t g_rx_cap = 0;
 static std::vector<uint8_t> g_rx;
@@ -26,6 +32,36 @@ void set_rx(const std::vector<uint8_t> &dgram, const char *src_ip, uint16_t src_
   g_rx_valid = true;
   g_rx_source = inet_addr(src_ip);
   g_rx_port = src_port;
+}
+
+extern "C" ssize_t __real_recvfrom(int, void *, size_t, int, struct sockaddr *, socklen_t *);
+extern "C" ssize_t __real_sendto(int, const void *, size_t, int, const struct sockaddr *, socklen_t);
+
+ssize_t kernel_roundtrip(const std::vector<uint8_t> &dgram, void *buf, size_t len, int flags) {
+  if (g_krx < 0) {
+    g_krx = socket(AF_INET, SOCK_DGRAM, 0);
+    g_ktx = socket(AF_INET, SOCK_DGRAM, 0);
+    int big = 1 << 20;
+    setsockopt(g_krx, SOL_SOCKET, SO_RCVBUF, &big, sizeof(big));
+    setsockopt(g_ktx, SOL_SOCKET, SO_SNDBUF, &big, sizeof(big));
+    memset(&g_kaddr, 0, sizeof(g_kaddr));
+    g_kaddr.sin_family = AF_INET;
+    g_kaddr.sin_addr.s_addr = htonl(INADDR_LOOPBACK);
+    g_kaddr.sin_port = 0;
+    if (bind(g_krx, reinterpret_cast<struct sockaddr*>(&g_kaddr), sizeof(g_kaddr)) != 0) { perror("bind"); abort(); }
+    socklen_t sl = sizeof(g_kaddr);
+    getsockname(g_krx, reinterpret_cast<struct sockaddr*>(&g_kaddr), &sl);
+  }
+  uint8_t dummy = 0;
+  if (__real_sendto(g_ktx, dgram.empty() ? &dummy : dgram.data(), dgram.size(), 0,
+                    reinterpret_cast<struct sockaddr*>(&g_kaddr), sizeof(g_kaddr)) < 0) { perror("sendto"); abort(); }
+  for (int tries = 0; tries < 2000; tries++) {
+    ssize_t r = __real_recvfrom(g_krx, buf, len, flags | MSG_DONTWAIT, NULL, NULL);
+    if (r >= 0 || (errno != EAGAIN && errno != EWOULDBLOCK)) return r;
+    usleep(100);
+  }
+  fprintf(stderr, "kernel_roundtrip: datagram did not arrive\n");
+  abort();
 }
 
 static std::map<std::string, Op> &ops() { static std::map<std::string, Op> m; return m; }
@@ -56,14 +92,22 @@ extern "C" ssize_t __wrap_sendto(int, const void *buf, size_t len, int, const st
   return static_cast<ssize_t>(len);
 }
 
-extern "C" ssize_t __wrap_recvfrom(int, void *buf, size_t len, int, struct sockaddr *src, socklen_t *slen) {
+extern "C" ssize_t __wrap_recvfrom(int, void *buf, size_t len, int flags, struct sockaddr *src, socklen_t *slen) {
   using namespace c06;
   if (!g_rx_valid) { errno = EAGAIN; return -1; }
   g_rx_valid = false;
   g_rx_calls++;
   g_rx_cap = len;
   size_t n = g_rx.size() < len ? g_rx.size() : len;
-  if (g_prev_mode) {
+  ssize_t ret = static_cast<ssize_t>(n);
+  if (g_kernel_mode) {
+    // persistent buffer contents underneath, then the kernel writes the datagram and decides the return value
+    if (g_persist_k.size() < len) g_persist_k.resize(len, 0xA5);
+    memcpy(buf, g_persist_k.data(), len);
+    ret = kernel_roundtrip(g_rx, buf, len, flags);
+    if (ret < 0) return ret;
+    memcpy(g_persist_k.data(), buf, n);
+  } else if (g_prev_mode) {
     // a persistent receive buffer: what earlier datagrams of this case left, new datagram over the front
     if (g_persist.size() < len) g_persist.resize(len, 0xA5);
     if (n) memcpy(g_persist.data(), g_rx.data(), n);
@@ -71,6 +115,8 @@ extern "C" ssize_t __wrap_recvfrom(int, void *buf, size_t len, int, struct socka
   } else {
     memset(buf, g_poison, len);            // the stale bytes an earlier, longer datagram left behind
     if (n) memcpy(buf, g_rx.data(), n);
+    // what the kernel does: with MSG_TRUNC the real length of the datagram is returned
+    if (flags & MSG_TRUNC) ret = static_cast<ssize_t>(g_rx.size());
   }
   if (src && slen && *slen >= sizeof(struct sockaddr_in)) {
     struct sockaddr_in *a = reinterpret_cast<struct sockaddr_in*>(src);
@@ -80,15 +126,46 @@ extern "C" ssize_t __wrap_recvfrom(int, void *buf, size_t len, int, struct socka
     a->sin_addr.s_addr = g_rx_source;
     *slen = sizeof(*a);
   }
-  return static_cast<ssize_t>(n);
+  return ret;
 }
+
+// sockrx <capacity> <size> [<size>...]: the contract of ola::network::UDPSocket::RecvFrom the models rely on:
+// a datagram of any size delivered by the kernel into a buffer of `capacity` bytes reports min(size, capacity)
+// bytes and writes nothing beyond the buffer (exact-size heap block under ASan).
+#include "ola/network/Socket.h"
+#include "ola/network/SocketAddress.h"
+static std::string do_sockrx(const std::vector<std::string> &a) {
+  if (a.size() < 3) return "bad-args";
+  size_t cap = vh::num(a[1]);
+  ola::network::UDPSocket sock;
+  sock.Init();
+  std::string r = "hz=none;twin=1";
+  for (size_t k = 2; k < a.size(); k++) {
+    size_t size = vh::num(a[k]);
+    std::vector<uint8_t> d(size);
+    for (size_t i = 0; i < size; i++) d[i] = static_cast<uint8_t>(i * 7 + k);
+    uint8_t *buf = new uint8_t[cap];
+    ssize_t got = static_cast<ssize_t>(cap);
+    ola::network::IPV4SocketAddress src;
+    c06::set_rx(d);
+    bool ok;
+    { c06::KernelMode km; ok = sock.RecvFrom(buf, &got, &src); }
+    bool same = ok && got >= 0 && static_cast<size_t>(got) <= cap && memcmp(buf, d.data(), static_cast<size_t>(got)) == 0;
+    delete[] buf;
+    r += ";s" + vh::str(k - 2) + "=ok:" + vh::str(ok ? 1 : 0) + "|n:" + vh::str(got) + "|same:" + vh::str(same ? 1 : 0);
+  }
+  return r;
+}
+static c06::Reg reg_sockrx("sockrx", do_sockrx);
 
 static std::string handle(const std::string &p) {
   std::vector<std::string> a = vh::split(p);
   std::map<std::string, c06::Op>::iterator it = c06::ops().find(a[0]);
   if (it == c06::ops().end()) return "bad-op";
   c06::g_persist.clear();
+  c06::g_persist_k.clear();
   c06::g_prev_mode = false;
+  c06::g_kernel_mode = false;
   return it->second(a);
 }
 
